@@ -250,6 +250,11 @@ func (s *replicaSys) pullFrom(rp *replica, remote string, record bool) bool {
 			if cm.Pack != nil {
 				m.MergePackId = cm.Pack.Id
 				out["merge"] = map[string]any{"parents": cm.Parents, "edit": cm.Pack.Edit}
+				// C05 on the real code: the merge commit is written now, its time is above every time this
+				// replica had handed out or seen when the pull began
+				if cm.Pack.Edit <= ce0 {
+					s.c.violation(-1, "C05/written-not-above", fmt.Sprintf("the merge commit written by the pull on %s has edit time %d, the clock stood at %d before the pull; schedule %v", rp.name, cm.Pack.Edit, ce0, s.log), nil)
+				}
 			}
 			s.scen5++
 			s.c.count("merge=scenario5")
